@@ -1,3 +1,4 @@
+import Props.CodecFacts
 import Props.C18
 open Model.C18
 #print axioms stored_links_empty
@@ -10,3 +11,25 @@ open Model.C18
 #print axioms verify_after_read
 #print axioms v1_links_in_clear
 #print axioms toyCrypto_laws
+open Model.CodecFacts in
+#print axioms atlas_entry_match_model
+open Model.CodecFacts in
+#print axioms atlas_entryV1_match_model
+open Model.CodecFacts in
+#print axioms atlas_manifest_match_model
+open Model.CodecFacts in
+#print axioms signed_keys_match_model
+open Model.CodecFacts in
+#print axioms signed_map_exact
+open Model.CodecFacts in
+#print axioms hashable_exact
+open Model.CodecFacts in
+#print axioms create_flow
+open Model.CodecFacts in
+#print axioms verify_flow
+open Model.CodecFacts in
+#print axioms presign_flow
+open Model.CodecFacts in
+#print axioms decrypt_flow
+open Model.CodecFacts in
+#print axioms jsonable_v2_flow
